@@ -158,7 +158,7 @@ def write_ruleset(path, spec):
     return path
 
 
-def load_grammar(ruledir, skip_brute=False, skip_case=False, folder='Grammar', save_file=None, version='4.7'):
+def load_grammar(ruledir, skip_brute=False, skip_case=False, folder='Grammar', save_file=None, version='4.7', **_ignored):
     """the real PcfgGrammar built from a ruleset directory"""
     use_impl()
     from lib_guesser.pcfg_grammar import PcfgGrammar
